@@ -67,9 +67,19 @@ def load_known():
     return json.load(open(p)).get('findings', [])
 
 
+def out_dir(kind):
+    """evidence/ and replays/ under /verif for runs against /repo; under scratch for other trees (seed testing)"""
+    repo = os.environ.get('VERIF_REPO', '/repo')
+    if os.path.realpath(repo) == '/repo':
+        d = os.path.join(VERIF, kind)
+    else:
+        d = os.path.join(os.environ.get('VERIF_OUT', os.path.join(os.environ.get('VERIF_SCRATCH', '/var/tmp/verif-scratch'), 'out')), kind)
+    os.makedirs(d, exist_ok=True)
+    return d
+
+
 def write_evidence(prop, doc):
-    os.makedirs(os.path.join(VERIF, 'evidence'), exist_ok=True)
-    p = os.path.join(VERIF, 'evidence', prop + '.json')
+    p = os.path.join(out_dir('evidence'), prop + '.json')
     with open(p + '.tmp', 'w') as f:
         json.dump(doc, f, indent=1, sort_keys=True, default=str)
     os.replace(p + '.tmp', p)
@@ -167,7 +177,6 @@ def main():
     confirmed = []
     known_hits = {}
     unreproduced = []
-    os.makedirs(os.path.join(VERIF, 'replays'), exist_ok=True)
     for (clause, sh), vs in sorted(groups.items(), key=lambda kv: str(kv[0])):
         vs.sort(key=lambda v: len(json.dumps(v['case']['inputs'])))
         ok = None
@@ -193,7 +202,7 @@ def main():
         case['native_failed'] = [list(x) for x in failed]
         case['shape'] = sh
         h = hashlib.sha1(json.dumps(case, sort_keys=True).encode()).hexdigest()[:10]
-        path = os.path.join(VERIF, 'replays', '%s-%s.json' % (prop, h))
+        path = os.path.join(out_dir('replays'), '%s-%s.json' % (prop, h))
         json.dump(case, open(path, 'w'), indent=1)
         confirmed.append((clause, sh, v, path, len(vs)))
 
